@@ -210,6 +210,12 @@ type reassemblyQueue struct {
 	useInterleaving bool
 	nBytes          uint64
 	maxEntries      uint32
+
+	// highest unordered MID skipped by an I-FORWARD-TSN so far (valid only if
+	// hasForwardedUnorderedMID); fragments of skipped messages that arrive
+	// later must not be queued again.
+	forwardedUnorderedMID    uint32
+	hasForwardedUnorderedMID bool
 }
 
 var (
@@ -376,6 +382,13 @@ func (r *reassemblyQueue) pushIData(chunk *chunkPayloadData) (bool, error) {
 
 func (r *reassemblyQueue) pushUnorderedIData(chunk *chunkPayloadData) (bool, error) {
 	if r.hasQueuedUnorderedMID(chunk.messageIdentifier) {
+		return false, nil
+	}
+
+	// A fragment of a message the peer has given up on: the rest of it will
+	// never arrive, so it would be held (and counted against the receive
+	// window) for ever.
+	if r.hasForwardedUnorderedMID && sna32LTE(chunk.messageIdentifier, r.forwardedUnorderedMID) {
 		return false, nil
 	}
 
@@ -709,6 +722,11 @@ func (r *reassemblyQueue) forwardTSNForOrderedMID(lastMID uint32) {
 }
 
 func (r *reassemblyQueue) forwardTSNForUnorderedMID(lastMID uint32) {
+	if !r.hasForwardedUnorderedMID || sna32GT(lastMID, r.forwardedUnorderedMID) {
+		r.forwardedUnorderedMID = lastMID
+		r.hasForwardedUnorderedMID = true
+	}
+
 	for mid, set := range r.unorderedMIDMap {
 		if sna32LTE(mid, lastMID) {
 			for _, c := range set.chunks {
